@@ -155,6 +155,35 @@ func registerIO(e *Engine) {
 		m.events = append(m.events, Event{Kind: "gzip.NewReader"})
 		return Tuple{&Opaque{kind: "gzip.Reader", data: r}, Iface{}}
 	}
+	// Multistream(false): the reader stops after the first gzip member
+	in["(*compress/gzip.Reader).Multistream"] = func(m *Machine, fr *frame, a []Value) Value {
+		o := a[0].(*Opaque)
+		on, ok := a[1].(bool)
+		if !ok {
+			panic(abort("gzip.Reader.Multistream with a symbolic argument"))
+		}
+		if on {
+			return nil
+		}
+		src, st := m.lineSource(o.data.(Iface))
+		rs := (*src).(Struct)
+		first, ok := rs[fieldIndex(st, "gzFirst")].(Num)
+		if !ok || first.t != nil {
+			panic(abort("gzip.Reader.Multistream: symbolic member layout"))
+		}
+		lines := rs[fieldIndex(st, "lines")].(Slice)
+		if first.c > 0 && int(first.c) < lines.len {
+			cp := copyVal(rs).(Struct)
+			l2 := lines
+			l2.len = int(first.c)
+			cp[fieldIndex(st, "lines")] = l2
+			nv := new(Value)
+			*nv = cp
+			inner := o.data.(Iface)
+			o.data = Iface{t: inner.t, v: nv}
+		}
+		return nil
+	}
 	in["(*compress/gzip.Reader).Close"] = func(m *Machine, fr *frame, a []Value) Value {
 		m.events = append(m.events, Event{Kind: "gzip.Close"})
 		return Iface{}
